@@ -1688,6 +1688,8 @@ def pattern_methods(rng):
             "empty-case": ([([keys[0]], a1, False), ([keys[1]], brk, False)], [pre]),
             "empty-cases-empty-default": ([([keys[0]], a1, False), ([keys[1], keys[2]], brk, False)], []),
             "two-empty-cases": ([([keys[0]], a1, False), ([keys[1]], brk, False), ([keys[2]], brk, False)], [pre]),
+            "empty-if-case-falls-through": ([([keys[0]], [("if", ("cmp", "lt", "I", x0, ("var", "p1"), False), [], [])], True), ([keys[1]], r1, False)], [pre]),
+            "if-return-then-break": ([([keys[0]], [("if", ("cmp", "lt", "I", x0, ("var", "p1"), False), r1, [])], False), ([keys[1]], r2, False)], [pre]),
             "multi-label-empty-case": ([([keys[0]], a1, False), ([keys[1], keys[2]], brk, False)], [pre]),
             "multi-label-empty-case-no-default": ([([keys[0]], a1, False), ([keys[1], keys[2]], brk, False)], None),
             "two-empty-cases-no-default": ([([keys[0]], a1, False), ([keys[1]], brk, False), ([keys[2]], brk, False)], None),
@@ -1696,7 +1698,8 @@ def pattern_methods(rng):
             "if-return-falls-into-next-case": ([([keys[0]], [("if", ("cmp", "lt", "I", x0, ("var", "p1"), False), r1, [])], True), ([keys[1]], r2, False)], [pre]),
         }
         three = {}
-        for vn in ("case-returns", "two-cases-return", "fallthrough", "fallthrough-into-return", "if-return-falls-into-next-case", "empty-case", "default-returns"):
+        for vn in ("case-returns", "two-cases-return", "fallthrough", "fallthrough-into-return", "if-return-falls-into-next-case", "empty-case", "default-returns",
+                   "empty-if-case-falls-through", "if-return-then-break"):
             cs, df = variants[vn]
             if len(cs) == 2:  # a leading case that really breaks gives the switch a proper follow node
                 three[vn + "#3"] = ([([keys[2]], [("assign", "x0", ("bin", "sub", "I", x0, ("var", "p1"), "3reg"))], False)] + cs, df)
@@ -1740,6 +1743,15 @@ def pattern_methods(rng):
     pd["redef-in-do-while-body-use-after"] = [T1, k0, ("dowhile", [T2, inc], lc), rx1]
     pd["redef-in-do-while-body-use-in-next-loop"] = [T1, k0, ("dowhile", [("assign", "x1", ("var", "k0")), inc], lc), k0,
                                                       ("dowhile", [("if", c1, [("assign", "x1", ("bin", "or", "I", ("var", "x1"), ("var", "p1"), "3reg"))], []), inc], lc), rx1]
+    cc = ("and", c1, ("cmp", "gt", "I", ("var", "p1"), _c(0), True))
+    pd["def-in-both-branches-of-compound-if-use-after"] = [("if", cc, [T1], [T2]), rx1]
+    pd["def-in-both-branches-of-compound-or-if-use-after"] = [("if", ("or", c1, ("cmp", "gt", "I", ("var", "p1"), _c(0), True)), [T1], [T2]), rx1]
+    pd["redef-in-both-branches-of-compound-if-use-in-condition"] = [T1, ("if", cc, [("assign", "x1", ("bin", "or", "I", ("var", "x1"), ("var", "p1"), "3reg"))], [T2]),
+                                                                     ("if", ("cmp", "lt", "I", ("var", "x1"), ("var", "p0"), False), [("return", _c(1))], []), ("return", _c(2))]
+    thr = ("cmp", "gt", "I", ("bin", "rem", "I", ("var", "p0"), ("var", "p1"), "3reg"), _c(0), True)
+    pd["empty-if-throwing-condition"] = [("if", thr, [], []), ("return", ("var", "p0"))]
+    pd["empty-if-throwing-condition-in-loop"] = [k0, ("while", lc, [("if", thr, [], []), inc], "top"), ("return", ("var", "p0"))]
+    pd["empty-if-throwing-compound-condition"] = [("if", ("or", c1, thr), [], []), ("return", ("var", "p0"))]
     kk = ("assign", "k0", _c(0))
     du = ("assign", "x1", ("bin", "rem", "I", x0, ("var", "k0"), "3reg"))
     pd["def-in-both-branches-only-dead-use-after"] = [("if", c1, [T1], [T2]), ("assign", "x0", ("bin", "rem", "I", ("var", "x1"), 3, "lit8")), ("return", ("var", "p0"))]
@@ -1755,7 +1767,11 @@ def pattern_methods(rng):
              "redef-in-do-while-body-use-after": "def-in-do-while-body", "redef-in-do-while-body-use-in-next-loop": "def-in-do-while-body",
              "def-in-both-branches-only-dead-use-after": "dead-stmt-uses-local", "counters-in-sibling-branches-only-dead-use-after": "dead-stmt-uses-local"}
     for name, body in pd.items():
-        if name.startswith("const-local-"):
+        if name.startswith("empty-if-throwing"):
+            add("PD", "I", P2, body, "empty-if:throwing-condition", name)
+        elif "compound" in name:
+            add("PD", "I", P2, body, "decl:compound-if-else-assigns-in-both-branches", name)
+        elif name.startswith("const-local-"):
             add("PD", "I", P2, body, "decl:const-local-multiple-uses", name)
             lb = eval(repr(body).replace("'I'", "'J'").replace("'const/16'", "'const-wide/16'").replace("'not-int'", "'not-long'"))
             add("PD", "J", [("p0", "J"), ("p1", "J")], lb, "decl:const-local-multiple-uses", name + "-long", locals_=[("x1", "J")])
@@ -1850,6 +1866,10 @@ def switch_props(s):
             p.add("if-in-case")
         if ft and i < len(cases) - 1 and body and body[-1][0] == "if" and any(ends_with_return(bb) for bb in sub_blocks(body[-1])):
             p.add("if-return-falls-into-next-case")
+        if ft and i < len(cases) - 1 and body and all(construct_name(x) == "empty-if" for x in body):
+            p.add("empty-if-case-falls-through")
+        if body and body[-1][0] == "if" and any(ends_with_return(bb) for bb in sub_blocks(body[-1])) and block_falls(body) and not (ft and i < len(cases) - 1):
+            p.add("if-return-then-break")
     if nret >= 2:
         p.add("two-cases-return")
     if nret == len(cases):
@@ -1867,9 +1887,24 @@ VARIANT_PROPS = {
     "empty-case": {"empty-case"}, "empty-cases-empty-default": {"empty-case", "multi-label", "empty-default"}, "default-returns": {"default-returns"},
     "if-in-case": {"if-in-case"}, "if-return-falls-into-next-case": {"if-return-falls-into-next-case"},
     "two-empty-cases": {"two-empty-cases"}, "two-empty-cases-no-default": {"two-empty-cases", "no-default"},
+    "empty-if-case-falls-through": {"empty-if-case-falls-through"}, "if-return-then-break": {"if-return-then-break"},
     "multi-label-empty-case": {"multi-label-empty-case"}, "multi-label-empty-case-no-default": {"multi-label-empty-case", "no-default"},
 }
 NARROW = ("int-to-byte", "int-to-char", "int-to-short")
+
+
+def cond_throws(c):
+    if c[0] == "cmp":
+        return bool(throwing_insns(c[3]) or throwing_insns(c[4]))
+    if c[0] == "not":
+        return cond_throws(c[1])
+    return cond_throws(c[1]) or cond_throws(c[2])
+
+
+def first_leaf(c):
+    while c[0] != "cmp":
+        c = c[1]
+    return c
 
 
 def structural_features(m):
@@ -1904,6 +1939,10 @@ def structural_features(m):
                 continue
             name = construct_name(s)
             f.add("nest:" + name)
+            if name == "empty-if" and cond_throws(s[1]):
+                f.add("empty-if:throwing-condition")
+            if name == "if-else" and s[1][0] in ("and", "or", "not") and (assigned_names(s[2]) & assigned_names(s[3])):
+                f.add("decl:compound-if-else-assigns-in-both-branches")
             if chain:
                 f.add("nest:%s/%s" % (chain[-1], name))
             if prev_ctl is not None:
@@ -1958,7 +1997,7 @@ def compile_method(m):  # noqa: F811  (adds the structural vocabulary to the ins
     return m
 
 
-STRUCT_KINDS = ("nest", "seq", "ret-in", "switch", "decl", "type", "throw")
+STRUCT_KINDS = ("nest", "seq", "ret-in", "switch", "decl", "type", "throw", "empty-if")
 
 
 def flatten_construct(s):
@@ -2086,6 +2125,31 @@ def neutralise_struct(m, bad):
         body = drop(body)
     if any(b.startswith("type:") or b == "decl:const-local-multiple-uses" for b in bad):
         body = strip_narrow(body)
+    if "empty-if:throwing-condition" in bad or "decl:compound-if-else-assigns-in-both-branches" in bad:
+        def fix_ifs(stmts):
+            o = []
+            for s in stmts:
+                k = s[0]
+                if k == "if":
+                    nm = construct_name(s)
+                    if nm == "empty-if" and cond_throws(s[1]) and "empty-if:throwing-condition" in bad:
+                        done.add("empty-if:throwing-condition")
+                        continue
+                    c = s[1]
+                    if (nm == "if-else" and c[0] in ("and", "or", "not") and (assigned_names(s[2]) & assigned_names(s[3]))
+                            and "decl:compound-if-else-assigns-in-both-branches" in bad):
+                        done.add("decl:compound-if-else-assigns-in-both-branches")
+                        c = first_leaf(c)
+                    s = ("if", c, fix_ifs(s[2]), fix_ifs(s[3]))
+                elif k == "while":
+                    s = ("while", s[1], fix_ifs(s[2]), s[3])
+                elif k == "dowhile":
+                    s = ("dowhile", fix_ifs(s[1]), s[2])
+                elif k == "switch":
+                    s = ("switch", s[1], [(ks, fix_ifs(b), ft) for ks, b, ft in s[2]], None if s[3] is None else fix_ifs(s[3]), s[4])
+                o.append(s)
+            return o
+        body = fix_ifs(body)
     if any(b.split(":")[0] in ("nest", "seq", "switch", "ret-in") for b in bad):
         body = walk(body, [])
     if "throw:div-or-rem" in bad and "throw:div-or-rem" in m.features:
